@@ -188,6 +188,23 @@ func c10Run(sc c10Scenario, prefix []int, sigs []string) (*vsched.Sched, schedVe
 		if sc.Reassoc && sc.NAssoc > 0 && !stopAsked {
 			reassocTried = true
 			n0 := len(w.peers[0].Inbox)
+			// from here on the clock advances only when no thread can run: a schedule in which the requester of a heartbeat
+			// is starved past two response time-outs while the answer sits in the reader's hands makes the agent declare
+			// the reborn peer dead - legitimately - and says nothing about re-association
+			s.NoClockDeviation = true
+			// the fresh incarnation of the peer is alive: it answers the agent's Heartbeat Requests (the silence that was
+			// the trigger belongs to the old one; without this the new association legitimately dies of heartbeat failure
+			// under schedules in which 5 s pass before the probe below)
+			vsched.Go("harness.peer-reborn", func() {
+				for answered := n0; ; {
+					vsched.Cond("peer-reborn.wait", func() bool { return answered < len(w.peers[0].Inbox) })
+					for ; answered < len(w.peers[0].Inbox); answered++ {
+						if d, err := vDecode(w.peers[0].Inbox[answered]); err == nil && d.Type == message.MsgTypeHeartbeatRequest {
+							w.peers[0].Send(c10N4+":8805", (&vMsg{Type: message.MsgTypeHeartbeatResponse, Seq: d.Seq, IEs: []*vIE{vFromIE(ie.NewRecoveryTimeStamp(time.Unix(1600000000, 0)))}}).marshal())
+						}
+					}
+				}
+			})
 			w.peers[0].Send(c10N4+":8805", (&sReq{Kind: kAssoc, Seq: 60}).build(conns[0]).marshal())
 			vsched.Quiesce("reassoc")
 			w.peers[0].Send(c10N4+":8805", (&sReq{Kind: kHB, Seq: 61}).build(conns[0]).marshal())
@@ -410,6 +427,9 @@ func TestVerifC10(t *testing.T) {
 		var sc c10Scenario
 		json.Unmarshal(b, &sc)
 		sr, v := c10Run(sc, c.Choices, c.Sigs)
+		if sr.Diverged != "" {
+			panic("VERIF-INFRA: the recorded schedule does not fit this tree: " + sr.Diverged)
+		}
 		if os.Getenv("VERIF_SCHEDLOG") != "" {
 			for _, l := range sr.Log {
 				fmt.Println("SCHED", l)
